@@ -31,6 +31,7 @@ import (
 	"net/url"
 	"os"
 	"path/filepath"
+	"strings"
 	"sync"
 
 	"github.com/lestrrat-go/jwx/v2/jwa"
@@ -497,4 +498,161 @@ func (s *c03State) lifecycle(st c03Step) {
 		}
 	}
 	s.n.sweep(s.x, st.Op, outs...)
+}
+
+// ---------------------------------------------------------------------------------------------------------------------
+// hostile key ids
+
+// c03HostileKids derives key ids that were never created (by exact string) from existing ones: empty / blank, SQL
+// wildcards and LIKE patterns, prefix / suffix / case variants, trailing space / NUL, very long, unicode look-alikes.
+func c03HostileKids(bases []string) []string {
+	out := []string{"", " ", "%", "_", "%%", "did:%", "did:web:%", "did:nuts:%", "*", "?", "' OR '1'='1", "\x00", "\t", "#", "null", "0"}
+	for _, b := range bases {
+		if len(b) < 4 {
+			continue
+		}
+		r := []rune(b)
+		out = append(out,
+			b[:len(b)-1], b[1:], b[:len(b)/2], b[:len(b)/2]+"%", b+"%", "%"+b[len(b)/2:],
+			strings.ToUpper(b), strings.ToLower(b),
+			b+" ", " "+b, b+"\x00", b+"\x00x", b+"\n", b+"#", b+"/", b+"/../"+b,
+			string(r[:len(r)/2])+"_"+string(r[len(r)/2+1:]), // LIKE single-character wildcard in place of one character
+			strings.Replace(b, "d", "ԁ", 1),                 // Cyrillic komi de
+			strings.Replace(b, ":", "：", 1),                 // fullwidth colon
+			strings.Replace(b, "#", "＃", 1),                 // fullwidth number sign
+			b+strings.Repeat("a", 5000),
+		)
+	}
+	return out
+}
+
+func (s *c03State) keyFiles() map[string]bool {
+	m := map[string]bool{}
+	entries, err := os.ReadDir(s.n.cryptoDir())
+	if err != nil {
+		s.x.Fatalf("read key directory: %v", err)
+	}
+	for _, e := range entries {
+		m[e.Name()] = true
+	}
+	return m
+}
+
+// hostileKids: for a kid that was never created every entry point refuses, Exists is false, Resolve fails and Delete
+// changes nothing; no signature is produced (least of all one that verifies under an existing key of the node) and no
+// existing key becomes unusable or loses its file.
+func (s *c03State) hostileKids(st c03Step) {
+	n := s.n
+	n.loadKeys(s.x)
+	// existing key ids (exact strings) of this case and what they are bound to
+	type live struct {
+		id  string
+		pub *ecdsa.PublicKey
+	}
+	var existing []live
+	exact := map[string]bool{}
+	for _, k := range s.kids {
+		exact[k.ID] = true
+	}
+	for _, slot := range s.lc {
+		exact[slot.Kid] = true // live or deleted: both are "created by exact string" at some time
+	}
+	signs := func(id string, pub *ecdsa.PublicKey) bool {
+		tok, err := n.keyStore.SignJWT(s.ctx(), map[string]interface{}{"iss": "c03-hk"}, nil, id)
+		if err != nil {
+			return false
+		}
+		j, err := c03ParseCompact(tok)
+		return err == nil && c03VerifyES256(j.signingInputs(nil)[0], j.Sig, pub)
+	}
+	for _, k := range s.kids {
+		if signs(k.ID, k.Pub) {
+			existing = append(existing, live{k.ID, k.Pub})
+		}
+	}
+	var bases []string
+	if k := s.kid(st.A); k != nil {
+		bases = append(bases, k.ID)
+	}
+	for _, slot := range s.lc {
+		if slot.Live {
+			existing = append(existing, live{slot.Kid, slot.Pub})
+			bases = append(bases, slot.Kid)
+			break
+		}
+	}
+	filesBefore := s.keyFiles()
+	var outs [][]byte
+	reported := map[string]bool{}
+	violate := func(sig, format string, args ...any) {
+		if !reported[sig] {
+			reported[sig] = true
+			s.x.Violate(sig, format, args...)
+		}
+	}
+	var encTo *ecdsa.PublicKey
+	if len(existing) > 0 {
+		encTo = existing[0].pub
+	}
+	for _, hk := range c03HostileKids(bases) {
+		if exact[hk] {
+			continue
+		}
+		label := fmt.Sprintf("%.80q", hk)
+		if ex, err := n.keyStore.Exists(s.ctx(), hk); ex {
+			violate("hostilekid:exists-for-never-created-kid", "Exists(%s) = true, %v; no key was ever created under that exact key id", label, err)
+		}
+		if pub, err := n.keyStore.Resolve(s.ctx(), hk); err == nil {
+			who := ""
+			if p, ok := pub.(*ecdsa.PublicKey); ok {
+				for _, np := range n.pubs {
+					if np.pub.Equal(p) {
+						who = " (the public key of key file " + np.name + ")"
+					}
+				}
+			}
+			violate("hostilekid:resolves-for-never-created-kid", "Resolve(%s) returns a key%s; no key was ever created under that exact key id", label, who)
+		}
+		for _, r := range s.lcEntryPoints(hk, encTo, 0x1ff) {
+			outs = append(outs, r.out)
+			switch {
+			case r.ok && r.decrypt:
+				violate("hostilekid:decrypts-for-never-created-kid", "%s decrypted for key id %s, which was never created", r.name, label)
+			case r.ok:
+				who := "no key file of the node"
+				if j, err := c03ParseCompact(r.token); err == nil {
+					for _, np := range n.pubs {
+						for _, in := range j.signingInputs(nil) {
+							if c03VerifyES256(in, j.Sig, np.pub) {
+								who = "the key in " + np.name + " (an existing key of the node, created under another key id)"
+							}
+						}
+					}
+				}
+				violate("hostilekid:signs-for-never-created-kid", "%s returned a signature for key id %s, which was never created; it verifies under %s", r.name, label, who)
+			default:
+				s.x.Class("hostile_kid:refused")
+			}
+		}
+		err := n.keyStore.Delete(s.ctx(), hk)
+		outs = append(outs, []byte(fmt.Sprintf("delete %s: %v", label, err)))
+		if err == nil {
+			s.x.Class("hostile_kid:delete-returned-nil")
+		}
+	}
+	// nothing that existed was harmed
+	filesAfter := s.keyFiles()
+	for f := range filesBefore {
+		if !filesAfter[f] {
+			violate("hostilekid:delete-removed-existing-key-file", "after Delete with never-created key ids the key file %s is gone", f)
+		}
+	}
+	for _, e := range existing {
+		if !signs(e.id, e.pub) {
+			violate("hostilekid:existing-kid-unusable-afterwards", "key id %s signed before the operations on never-created key ids and does not sign (under its published key) afterwards", e.id)
+		}
+	}
+	s.x.Classf("hostile_kid:existing-kids-rechecked:%d", c03Bucket(len(existing)))
+	s.x.NonTrivial()
+	n.sweep(s.x, st.Op, outs...)
 }
